@@ -800,6 +800,15 @@ func sameValue(a, b ssa.Value, depth int) bool {
 	case *ssa.Field:
 		y, ok := b.(*ssa.Field)
 		return ok && x.Field == y.Field && sameValue(x.X, y.X, depth+1)
+	case *ssa.MakeInterface:
+		y, ok := b.(*ssa.MakeInterface)
+		return ok && types.Identical(x.Type(), y.Type()) && sameValue(x.X, y.X, depth+1)
+	case *ssa.ChangeInterface:
+		y, ok := b.(*ssa.ChangeInterface)
+		return ok && sameValue(x.X, y.X, depth+1)
+	case *ssa.Extract:
+		y, ok := b.(*ssa.Extract)
+		return ok && x.Index == y.Index && x.Tuple == y.Tuple
 	}
 	return false
 }
